@@ -29,16 +29,9 @@ def decodeLines (j : Json) (k : String) : Except String (List (Str × Str)) := d
 def encodeHeaders (h : Headers) : Json :=
   Json.arr (h.flatMap fun e => e.2.map fun v => J.obj [("n", J.hex e.1), ("v", J.hex v)]).toArray
 
-/-- the (resource, subresource, namespace, name) of the authorizer attributes of a derived request -/
-def reqKey : ImpReq → (String × Str × Str × Str)
-  | .sa ns name => ("serviceaccounts", [], ns, name)
-  | .user name => ("users", [], [], name)
-  | .group name => ("groups", [], [], name)
-  | .extra key value => ("userextras", key, [], value)
-
-def encodeReq (r : ImpReq) : Json :=
-  let (res, sub, ns, name) := reqKey r
-  J.obj [("res", Json.str res), ("sub", J.hex sub), ("ns", J.hex ns), ("name", J.hex name)]
+def encodeAttrs (a : Attrs) : Json :=
+  J.obj [("grp", J.hex a.apiGroup), ("res", J.hex a.resource), ("sub", J.hex a.subresource), ("ns", J.hex a.ns),
+         ("name", J.hex a.name)]
 
 def decodeDecision : String → Except String Decision
   | "allow" => pure .allow
@@ -47,15 +40,23 @@ def decodeDecision : String → Except String Decision
   | "error" => pure .error
   | s => throw s!"bad decision {s}"
 
-def decodeAz (j : Json) : Except String (ImpReq → Decision) := do
+/-- the scripted policy: `{"default": d, "deny": [{grp,res,sub,ns,name,d}…]}` — the first rule whose five attributes equal the
+    record decides, else the default (`allow` when absent) -/
+def decodeAz (j : Json) : Except String (Attrs → Decision) := do
   let rules ← (← J.getArr j "deny").toList.mapM fun e => do
-    let res ← J.getStr e "res"
+    let grp ← J.getHex e "grp"
+    let res ← J.getHex e "res"
     let sub ← J.getHex e "sub"
     let ns ← J.getHex e "ns"
     let name ← J.getHex e "name"
     let d ← decodeDecision (← J.getStr e "d")
-    pure ((res, sub, ns, name), d)
-  pure fun r => (rules.lookup (reqKey r)).getD .allow
+    pure ((⟨grp, res, sub, ns, name⟩ : Attrs), d)
+  let dflt ← match j.getObjVal? "default" with
+    | .ok (.str d) => decodeDecision d
+    | _ => pure Decision.allow
+  pure fun a => match rules.find? (fun r => r.1 == a) with
+    | some r => r.2
+    | none => dflt
 
 def outcomeName : Outcome → String
   | .badRequest => "badRequest"
@@ -105,7 +106,8 @@ def doRun (a : Json) : Except String Json := do
     ("outcome", Json.str (outcomeName out)),
     ("recv", recvJ),
     ("ctxUser", ctxJ),
-    ("calls", Json.arr (calls.map encodeReq).toArray),
+    ("calls", Json.arr (calls.map fun r => encodeAttrs (attrsFor r)).toArray),
+    ("required", Json.arr ((if impersonationRequested raw && !malformed raw then requiredRecords raw else []).map encodeAttrs).toArray),
     ("expect", expJ),
     ("impRequested", J.bool (impersonationRequested raw)),
     ("judgeModel", Json.arr ((judge token upgrade exp modelUpstream).map fun c => Json.str c.name).toArray),
